@@ -178,3 +178,83 @@ func (g *Gen) structFields(rel, name string) ([]string, error) {
 	_ = strings.Join
 	return out, nil
 }
+
+// genC07Wire: wire codecs built on lib/codec (records, msgservice messages, raft log payload).
+func genC07Wire(g *Gen) error {
+	const (
+		benc  = "lib/codec/binary_encoder.go"
+		bdec  = "lib/codec/binary_decoder.go"
+		rcod  = "lib/record/record_codec.go"
+		ccod  = "lib/record/column_codec.go"
+		scod  = "lib/record/schema_codec.go"
+		msg   = "lib/msgservice/message.go"
+		dw    = "lib/raftlog/datawrapper.go"
+		vmenc = "lib/util/lifted/VictoriaMetrics/lib/encoding/int.go"
+	)
+	g.P("")
+	g.P("/-! ## wire codecs -/")
+	for _, f := range [][3]string{
+		{rcod, "Record.Marshal", "src_recordMarshal"},
+		{rcod, "Record.CodecSize", "src_recordCodecSize"},
+		{ccod, "ColVal.Marshal", "src_colValMarshal"},
+		{ccod, "ColVal.Size", "src_colValSize"},
+		{scod, "Field.Marshal", "src_fieldMarshal"},
+		{scod, "Field.Size", "src_fieldSize"},
+		{msg, "WritePointsResponse.Marshal", "src_writePointsResponseMarshal"},
+		{msg, "WriteBlobsResponse.Marshal", "src_writeBlobsResponseMarshal"},
+		{msg, "WriteStreamPointsResponse.Marshal", "src_writeStreamPointsResponseMarshal"},
+		{msg, "StreamVar.Marshal", "src_streamVarMarshal"},
+		{msg, "WriteStreamPointsRequest.Marshal", "src_writeStreamPointsRequestMarshal"},
+		{dw, "DataWrapper.Marshal", "src_dataWrapperMarshal"},
+		{dw, "Unmarshal", "src_dataWrapperUnmarshal"},
+		{benc, "AppendString", "src_appendString"},
+		{benc, "AppendBytes", "src_appendBytes"},
+		{benc, "AppendUint32SliceSafe", "src_appendUint32SliceSafe"},
+		{benc, "AppendUint64Slice", "src_appendUint64Slice"},
+		{benc, "AppendInt", "src_appendInt"},
+		{benc, "AppendInt64", "src_appendInt64"},
+		{vmenc, "MarshalInt64", "src_vmMarshalInt64"},
+		{vmenc, "UnmarshalInt64", "src_vmUnmarshalInt64"},
+	} {
+		if err := g.srcDef(f[0], f[1], f[2]); err != nil {
+			return err
+		}
+	}
+	for _, s := range [][3]string{
+		{"lib/record/record.go", "Record", "fields_Record"},
+		{"lib/record/schema.go", "Field", "fields_Field"},
+		{msg, "WritePointsResponse", "fields_WritePointsResponse"},
+		{msg, "StreamVar", "fields_StreamVar"},
+		{msg, "WriteStreamPointsRequest", "fields_WriteStreamPointsRequest"},
+		{dw, "DataWrapper", "fields_DataWrapper"},
+	} {
+		fs, err := g.structFields(s[0], s[1])
+		if err != nil {
+			return err
+		}
+		g.StrList(s[2], fs)
+	}
+	for _, f := range [][3]string{
+		{rcod, "Record.Unmarshal", "fp_recordUnmarshal"},
+		{ccod, "ColVal.Unmarshal", "fp_colValUnmarshal"},
+		{scod, "Field.Unmarshal", "fp_fieldUnmarshal"},
+		{msg, "WritePointsResponse.Unmarshal", "fp_writePointsResponseUnmarshal"},
+		{msg, "WriteBlobsResponse.Unmarshal", "fp_writeBlobsResponseUnmarshal"},
+		{msg, "WriteStreamPointsResponse.Unmarshal", "fp_writeStreamPointsResponseUnmarshal"},
+		{msg, "StreamVar.Unmarshal", "fp_streamVarUnmarshal"},
+		{msg, "StreamVar.Size", "fp_streamVarSize"},
+		{msg, "WriteStreamPointsRequest.Unmarshal", "fp_writeStreamPointsRequestUnmarshal"},
+		{bdec, "BinaryDecoder.Int", "fp_decInt"},
+		{bdec, "BinaryDecoder.Bool", "fp_decBool"},
+		{bdec, "BinaryDecoder.Uint32", "fp_decUint32"},
+		{bdec, "BinaryDecoder.BytesNoCopy", "fp_decBytesNoCopy"},
+		{bdec, "BinaryDecoder.Bytes", "fp_decBytes"},
+		{bdec, "BinaryDecoder.Uint32SliceLE", "fp_decUint32SliceLE"},
+		{bdec, "BinaryDecoder.Uint64Slice", "fp_decUint64Slice"},
+	} {
+		if err := g.fpDef(f[0], f[1], f[2]); err != nil {
+			return err
+		}
+	}
+	return nil
+}
